@@ -34,6 +34,9 @@ var servingTable = []servingEntry{
 }
 
 // case -> acceptable sources (selector / method names, or "nil" for kinds without that member)
+// rootOpConst: __Schema field -> the OpType constant its root type is registered under.
+var rootOpConst = map[string]string{"queryType": "OpQuery", "mutationType": "OpMutation", "subscriptionType": "OpSubscription"}
+
 var caseFieldTable = map[string][]string{
 	"name":              {"N", "Name", "Value"},
 	"description":       {"Desc", "Description"},
@@ -181,7 +184,146 @@ func (c *Ctx) resolveCases(fd *ast.FuncDecl) (cases map[string]*ast.CaseClause, 
 		}
 		return false
 	})
+	// names served through a table: `if v, ok := table[field.Name]; ok { body }` with table a package-level
+	// map declared with constant keys and written nowhere else is a clause for each key of the table
+	ast.Inspect(fd.Body, func(n ast.Node) bool {
+		ifs, ok := n.(*ast.IfStmt)
+		if !ok || ifs.Init == nil {
+			return true
+		}
+		as, ok := ifs.Init.(*ast.AssignStmt)
+		if !ok || len(as.Lhs) != 2 || len(as.Rhs) != 1 {
+			return true
+		}
+		ix, ok := as.Rhs[0].(*ast.IndexExpr)
+		if !ok {
+			return true
+		}
+		sel, ok := ix.Index.(*ast.SelectorExpr)
+		if !ok || sel.Sel.Name != "Name" {
+			return true
+		}
+		if t := c.P.TypesInfo.TypeOf(sel.X); t == nil || !c.isNamed(t, "Field") {
+			return true
+		}
+		okID, _ := as.Lhs[1].(*ast.Ident)
+		condID, _ := ifs.Cond.(*ast.Ident)
+		if okID == nil || condID == nil || c.P.TypesInfo.Uses[condID] == nil || c.P.TypesInfo.Uses[condID] != c.P.TypesInfo.Defs[okID] {
+			return true
+		}
+		tid, ok := ix.X.(*ast.Ident)
+		if !ok {
+			return true
+		}
+		for _, k := range c.tableKeys(tid) {
+			if _, have := cases[k]; !have {
+				cc := &ast.CaseClause{Case: ifs.Pos(), Colon: ifs.Body.Lbrace, Body: ifs.Body.List}
+				cases[k] = cc
+				tableClauseOf[cc] = tid
+			}
+		}
+		return true
+	})
 	return
+}
+
+// tableClauseOf: synthetic clauses made from a table lookup -> the table's identifier.
+var tableClauseOf = map[*ast.CaseClause]*ast.Ident{}
+
+// tableValueText: the source text of the value the table holds under key.
+func (c *Ctx) tableValueText(id *ast.Ident, key string) string {
+	info := c.P.TypesInfo
+	tv, _ := info.Uses[id].(*types.Var)
+	for _, f := range c.P.Syntax {
+		for _, d := range f.Decls {
+			gd, ok := d.(*ast.GenDecl)
+			if !ok || gd.Tok != token.VAR {
+				continue
+			}
+			for _, sp := range gd.Specs {
+				vs := sp.(*ast.ValueSpec)
+				for i, nm := range vs.Names {
+					if tv == nil || info.Defs[nm] != types.Object(tv) || i >= len(vs.Values) {
+						continue
+					}
+					if cl, ok := vs.Values[i].(*ast.CompositeLit); ok {
+						for _, el := range cl.Elts {
+							if kv, ok := el.(*ast.KeyValueExpr); ok {
+								if s, ok := c.constString(kv.Key); ok && s == key {
+									return types.ExprString(kv.Value)
+								}
+							}
+						}
+					}
+				}
+			}
+		}
+	}
+	return ""
+}
+
+// tableKeys: the constant string keys of a package-level map declared with a literal and written nowhere
+// else.
+func (c *Ctx) tableKeys(id *ast.Ident) []string {
+	info := c.P.TypesInfo
+	tv, ok := info.Uses[id].(*types.Var)
+	if !ok || tv.Parent() != c.P.Types.Scope() {
+		return nil
+	}
+	g, ok := c.SP.Members[tv.Name()].(*ssa.Global)
+	if !ok {
+		return nil
+	}
+	// no MapUpdate on a load of the table, no store to it outside its declaration
+	for _, fn := range c.allFns {
+		for _, b := range fn.Blocks {
+			for _, in := range b.Instrs {
+				switch t := in.(type) {
+				case *ssa.Store:
+					if rootGlobal(t.Addr) == g {
+						return nil
+					}
+				case *ssa.MapUpdate:
+					if u, ok := t.Map.(*ssa.UnOp); ok && u.X == ssa.Value(g) {
+						return nil
+					}
+				}
+			}
+		}
+	}
+	var out []string
+	for _, f := range c.P.Syntax {
+		for _, d := range f.Decls {
+			gd, ok := d.(*ast.GenDecl)
+			if !ok || gd.Tok != token.VAR {
+				continue
+			}
+			for _, sp := range gd.Specs {
+				vs := sp.(*ast.ValueSpec)
+				for i, nm := range vs.Names {
+					if info.Defs[nm] != types.Object(tv) || i >= len(vs.Values) {
+						continue
+					}
+					cl, ok := vs.Values[i].(*ast.CompositeLit)
+					if !ok {
+						return nil
+					}
+					for _, el := range cl.Elts {
+						kv, ok := el.(*ast.KeyValueExpr)
+						if !ok {
+							return nil
+						}
+						s, ok := c.constString(kv.Key)
+						if !ok {
+							return nil
+						}
+						out = append(out, s)
+					}
+				}
+			}
+		}
+	}
+	return out
 }
 
 func mentions(n ast.Node, names []string) (string, bool) {
@@ -268,6 +410,16 @@ func checkC17(c *Ctx, r *Report) {
 				}
 				// the first name of a multi-name clause decides; every name must be satisfied by the body
 				got, ok := mentions(&ast.BlockStmt{List: cc.Body}, want)
+				if opc := rootOpConst[nm]; opc != "" && ok {
+					// the root operation type is looked up under the operation's own name
+					_, inBody := mentions(&ast.BlockStmt{List: cc.Body}, []string{opc})
+					if tid := tableClauseOf[cc]; tid != nil {
+						inBody = c.tableValueText(tid, nm) == opc
+					} else if len(cc.List) > 1 {
+						inBody = false
+					}
+					r.check("C17.MAP", fmt.Sprintf("(*%s).Resolve case %q looks the type up under %s", srv, nm, opc), cc.Pos(), inBody, "the root operation type reported for this field is looked up under another operation's name")
+				}
 				// a clause shared with another name must not serve this name with the other's source
 				shared := ""
 				if ok && len(cc.List) > 1 && strings.HasPrefix(got, "\"") {
